@@ -660,8 +660,8 @@ void HttpMessage::writeFile(const String& path, int begin, int end)
 		sendHeaders();
 	int n = 1;
 	file.seek(begin);
-	Long size = file.size();
-	if (begin != end)
+	Long size = file.size() - begin;
+	if (end >= 0)
 		size = end - begin + 1;
 	int bytesSent = 0;
 	//HttpStatus status;
@@ -692,14 +692,14 @@ bool HttpMessage::putFile(const String& path, int begin, int end)
 		write();
 		return false;
 	}
-	if (begin == 0 && end == 0 && !hasHeader("Content-Range"))
+	if (begin == 0 && end < 0 && !hasHeader("Content-Range"))
 		setHeader("Content-Length", file.size());
 	else
 	{
 		Long size = file.size();
-		if (end == 0)
+		if (end < 0 || end >= size) // open-ended, or beyond the end: up to the last byte
 			end = int(size - 1);
-		if (end <= begin || begin < 0 || end > size)
+		if (end < begin || begin < 0 || begin >= size)
 		{
 			setHeader("Content-Length", "0");
 			setHeader("Content-Range", String::f("bytes */%lli", size));
